@@ -3,7 +3,7 @@
 
   `decode_encode`: for EVERY table of optional strings whose rows have at least one field — any characters,
   including quotes, commas, CR and LF — the strict reader of the dialect returns exactly the table that was
-  written.  Null/empty convention: `none` (NULL) is the empty unquoted field, `some ""` is `""`.
+  written.  Null/empty convention: `none` (NULL) is the empty unquoted field, the empty string is written as two double quotes.
   `file_eq_memory`: in the model of the result-selection loop, with an output folder there is exactly one
   file per returned dataset, the file decodes to the in-memory data of the same run without a folder, and the
   returned datasets carry no data.
@@ -30,10 +30,10 @@ theorem encode_injective (t t' : Tbl) (h : WF t) (h' : WF t') (e : encode t = en
 
 /-- NULL and the empty string are written differently and read back as what they were. -/
 theorem null_vs_empty :
-    encode [[none, some []]] = [',', '"', '"', '\n'] ∧
-    decode [',', '"', '"', '\n'] = some [[none, some []]] ∧
-    decode ['"', 'a', '"', '"', 'b', ',', '\n', 'c', '"', ',', 'x', '\n'] =
-      some [[some ['a', '"', 'b', ',', '\n', 'c'], some ['x']]] := by
+    encode [[none, some []]] = [',', dq, dq, '\n'] ∧
+    decode [',', dq, dq, '\n'] = some [[none, some []]] ∧
+    decode [dq, 'a', dq, dq, 'b', ',', '\n', 'c', dq, ',', 'x', '\n'] =
+      some [[some ['a', dq, 'b', ',', '\n', 'c'], some ['x']]] := by
   decide
 
 /-- With an output folder: one file per returned dataset, each file decodes to the in-memory data of the
